@@ -1,8 +1,10 @@
 package simkit
 
 import (
+	"encoding/json"
 	"fmt"
 	"os"
+	"os/exec"
 	"path/filepath"
 	"runtime"
 	"sort"
@@ -19,6 +21,7 @@ type Part struct {
 	ProcessLevel bool           // drives child processes (smaller shrink budget, needs scratch + CLI)
 	NeedsCLI     bool
 	Workers      int           // 0 = all cores
+	Shards       bool          // run the batch in one-worker child processes (process-global seams)
 	Budget       time.Duration // wall-clock watchdog per tier run (0 = default)
 	Params       map[string]string
 }
@@ -34,15 +37,16 @@ type Check struct {
 	Stub           []string // components that are harness stubs
 	Assumptions    []string
 	SimTimeUnit    string
+	Extra          func() map[string]any // additional measured evidence
 }
 
 // Found is a violation found by a batch.
 type Found struct {
-	Part  string
-	Run   uint64
-	Seed  uint64
-	Res   *Result
-	Known string // non-empty: text of the matching known finding
+	Part  string  `json:"part"`
+	Run   uint64  `json:"run"`
+	Seed  uint64  `json:"seed"`
+	Res   *Result `json:"res"`
+	Known string  `json:"-"` // non-empty: text of the matching known finding
 }
 
 // BatchStats aggregates a part's runs.
@@ -64,10 +68,172 @@ type BatchStats struct {
 	Samples     []any          `json:"-"`
 	found       map[string]*Found
 	hashes      map[uint64]struct{}
+	nontriv     map[uint64]struct{}
 }
 
 // RunBatch executes n runs of a part.
 func RunBatch(property string, p Part, tier string, seed uint64, n int, env Env) (*BatchStats, error) {
+	if p.Shards && os.Getenv("VERIF_SHARD_CHILD") == "" {
+		return runSharded(property, p, tier, seed, n)
+	}
+	return runRange(property, p, tier, seed, 0, n, env)
+}
+
+// shardResult is what a shard child prints.
+type shardResult struct {
+	Stats     *BatchStats `json:"stats"`
+	Hashes    []uint64    `json:"hashes"`
+	Nontriv   []uint64    `json:"nontrivial_hashes"`
+	Founds    []*Found    `json:"founds"`
+	SampleIdx []uint64    `json:"sample_idx"`
+	Samples   []any       `json:"samples"`
+}
+
+// RunShard runs runs [from,to) sequentially in this process and prints the result as JSON.
+func RunShard(c *Check, part, tier string, seed uint64, from, to int, env Env) int {
+	var p *Part
+	for i := range c.Parts {
+		if c.Parts[i].Name == part {
+			p = &c.Parts[i]
+		}
+	}
+	if p == nil {
+		return ExitHarness
+	}
+	pp := *p
+	pp.Workers = 1
+	st, err := runRange(c.Property, pp, tier, seed, from, to, env)
+	if err != nil {
+		fmt.Fprintln(os.Stderr, err)
+		return ExitHarness
+	}
+	res := shardResult{Stats: st, Founds: st.Founds(), Samples: st.Samples}
+	for h := range st.hashes {
+		res.Hashes = append(res.Hashes, h)
+	}
+	for h := range st.nontriv {
+		res.Nontriv = append(res.Nontriv, h)
+	}
+	b, _ := json.Marshal(res)
+	os.Stdout.Write(b)
+	return ExitOK
+}
+
+func runSharded(property string, p Part, tier string, seed uint64, n int) (*BatchStats, error) {
+	workers := runtime.NumCPU()
+	if w := os.Getenv("VERIF_WORKERS"); w != "" {
+		fmt.Sscan(w, &workers)
+	}
+	if workers > n {
+		workers = n
+	}
+	if workers < 1 {
+		workers = 1
+	}
+	self, err := os.Executable()
+	if err != nil {
+		return nil, err
+	}
+	start := time.Now()
+	// Many small shards, handed out to a fixed number of child slots: keeps all cores busy.
+	chunk := (n + workers*4 - 1) / (workers * 4)
+	if chunk < 1 {
+		chunk = 1
+	}
+	type job struct{ from, to int }
+	var jobs []job
+	for f := 0; f < n; f += chunk {
+		to := f + chunk
+		if to > n {
+			to = n
+		}
+		jobs = append(jobs, job{f, to})
+	}
+	results := make([]*shardResult, len(jobs))
+	var (
+		wg   sync.WaitGroup
+		next int64 = -1
+		herr atomic.Value
+	)
+	for w := 0; w < workers; w++ {
+		wg.Add(1)
+		go func() {
+			defer wg.Done()
+			for {
+				i := int(atomic.AddInt64(&next, 1))
+				if i >= len(jobs) {
+					return
+				}
+				cmd := exec.Command(self, "shard", property, p.Name, tier, fmt.Sprint(seed), fmt.Sprint(jobs[i].from), fmt.Sprint(jobs[i].to))
+				cmd.Env = append(os.Environ(), "VERIF_SHARD_CHILD=1")
+				cmd.Stderr = os.Stderr
+				out, err := cmd.Output()
+				if err != nil {
+					herr.Store(fmt.Sprintf("shard %d-%d: %v", jobs[i].from, jobs[i].to, err))
+					return
+				}
+				var r shardResult
+				if err := json.Unmarshal(out, &r); err != nil {
+					herr.Store(fmt.Sprintf("shard %d-%d: bad output: %v", jobs[i].from, jobs[i].to, err))
+					return
+				}
+				results[i] = &r
+			}
+		}()
+	}
+	wg.Wait()
+	if m := herr.Load(); m != nil {
+		return nil, fmt.Errorf("harness: %s", m.(string))
+	}
+	st := &BatchStats{Part: p.Name, Planned: n, Fired: map[string]int{}, Configured: map[string]int{}, Probes: map[string]int{}, Tags: map[string]int{},
+		found: map[string]*Found{}, hashes: map[uint64]struct{}{}, nontriv: map[uint64]struct{}{}}
+	for _, r := range results {
+		if r == nil {
+			continue
+		}
+		s := r.Stats
+		st.Runs += s.Runs
+		st.Steps += s.Steps
+		st.Nontrivial += s.Nontrivial
+		st.Violations += s.Violations
+		st.Truncated = st.Truncated || s.Truncated
+		for k, v := range s.Fired {
+			st.Fired[k] += v
+		}
+		for k, v := range s.Configured {
+			st.Configured[k] += v
+		}
+		for k, v := range s.Probes {
+			st.Probes[k] += v
+		}
+		for k, v := range s.Tags {
+			st.Tags[k] += v
+		}
+		for _, h := range r.Hashes {
+			st.hashes[h] = struct{}{}
+		}
+		for _, h := range r.Nontriv {
+			st.nontriv[h] = struct{}{}
+		}
+		for _, f := range r.Founds {
+			sig := f.Res.Violation.Signature
+			if o, ok := st.found[sig]; !ok || f.Run < o.Run {
+				st.found[sig] = f
+			}
+		}
+		if len(st.Samples) < 3 {
+			st.Samples = append(st.Samples, r.Samples...)
+		}
+	}
+	if len(st.Samples) > 3 {
+		st.Samples = st.Samples[:3]
+	}
+	st.Distinct, st.DistinctAll = len(st.nontriv), len(st.hashes)
+	st.WallS = time.Since(start).Seconds()
+	return st, nil
+}
+
+func runRange(property string, p Part, tier string, seed uint64, from, n int, env Env) (*BatchStats, error) {
 	workers := p.Workers
 	if workers <= 0 {
 		workers = runtime.NumCPU()
@@ -75,8 +241,8 @@ func RunBatch(property string, p Part, tier string, seed uint64, n int, env Env)
 	if w := os.Getenv("VERIF_WORKERS"); w != "" {
 		fmt.Sscan(w, &workers)
 	}
-	if workers > n {
-		workers = n
+	if workers > n-from {
+		workers = n - from
 	}
 	if workers < 1 {
 		workers = 1
@@ -90,13 +256,13 @@ func RunBatch(property string, p Part, tier string, seed uint64, n int, env Env)
 	}
 	start := time.Now()
 	deadline := start.Add(budget)
-	st := &BatchStats{Part: p.Name, Planned: n, Fired: map[string]int{}, Configured: map[string]int{}, Probes: map[string]int{}, Tags: map[string]int{},
-		found: map[string]*Found{}, hashes: map[uint64]struct{}{}}
-	nontrivHashes := map[uint64]struct{}{}
+	st := &BatchStats{Part: p.Name, Planned: n - from, Fired: map[string]int{}, Configured: map[string]int{}, Probes: map[string]int{}, Tags: map[string]int{},
+		found: map[string]*Found{}, hashes: map[uint64]struct{}{}, nontriv: map[uint64]struct{}{}}
+	nontrivHashes := st.nontriv
 	samples := map[uint64]any{}
 	var (
 		mu      sync.Mutex
-		next    uint64
+		next    = uint64(from)
 		wg      sync.WaitGroup
 		herr    atomic.Value
 		stopped atomic.Bool
@@ -166,7 +332,7 @@ func RunBatch(property string, p Part, tier string, seed uint64, n int, env Env)
 				for _, t := range res.Tags {
 					st.Tags[t]++
 				}
-				if i < 3 {
+				if i < uint64(from)+3 {
 					samples[i] = map[string]any{"part": p.Name, "run": i, "seed": rs, "scenario": res.Sample, "trace_hash": res.TraceHash}
 				}
 				if res.Violation != nil {
@@ -187,7 +353,7 @@ func RunBatch(property string, p Part, tier string, seed uint64, n int, env Env)
 	st.Distinct = len(nontrivHashes)
 	st.DistinctAll = len(st.hashes)
 	st.WallS = time.Since(start).Seconds()
-	for i := uint64(0); i < 3; i++ {
+	for i := uint64(from); i < uint64(from)+3; i++ {
 		if s, ok := samples[i]; ok {
 			st.Samples = append(st.Samples, s)
 		}
